@@ -27,6 +27,97 @@ def rejects_dot_components(fn: FuncInfo, repo=None) -> bool:
     return lits == BAD
 
 
+def free_name_rules(eng: Engine, ck: Check, rule: str):
+    """A freshly chosen local path names a file that does not exist yet: the duplicate strategy applies iff the name is taken, matches
+    the numbered siblings with an ESCAPED pattern and picks the smallest unused index (shared by C09: two downloads never share a path,
+    and C04: a fresh download sends offset 0 and opens the file in append mode, which is only sound on a new file)."""
+    repo = eng.repo
+    nd = eng.func(NAMING, 'NumberDuplicateStrategy.apply')
+    dirp, namep = nd.params[2], nd.params[3]
+    facts = {}
+    sp = pfind(nd.node, f'$stem, $ext = os.path.splitext({namep})')
+    facts['stem and extension come from splitext(local_filename)'] = len(sp) == 1
+    if sp:
+        stem, ext = sp[0][1]['stem'], sp[0][1]['ext']
+        sa_n = single_assignments(nd)
+        lst = [x for x in calls_in(nd.node) if pat.match(x, pat.compile_pattern(f'os.listdir({dirp})')[0]) is not None]
+        facts['the directory listing of local_dir is consulted'] = len(lst) == 1
+        ms = [x for x in calls_in(nd.node) if call_name(x) in ('match', 'fullmatch') and len(x.args) == 2]
+        facts['every listed name is matched against escape(stem) + PATTERN + escape(ext)'] = len(ms) == 1 and pat.match(
+            expand_aliases(nd, ms[0].args[0]), pat.compile_pattern(f're.escape({stem}) + self.PATTERN + re.escape({ext})')[0]) is not None
+        idx_src = pfind(nd.node, 'int($m.group(1))')
+        facts['the captured number of every match is collected'] = len(idx_src) == 1
+        # the list the numbers go to
+        idx_name = None
+        if idx_src:
+            n0 = idx_src[0][0]
+            par = parent(n0)
+            if isinstance(par, ast.Call) and call_name(par) == 'append' and isinstance(par.func.value, ast.Name):
+                idx_name = par.func.value.id
+            else:
+                st0 = enclosing_stmt(n0)
+                if isinstance(st0, ast.Assign) and isinstance(st0.targets[0], ast.Name):
+                    idx_name = st0.targets[0].id
+        free = []
+        if idx_name:
+            for n_, bd_ in pfind(nd.node, f'min($cand - set({idx_name}))'):
+                cand = expand_aliases(nd, ast.parse(bd_['cand'], mode='eval').body, depth=1)
+                if pat.match(cand, pat.compile_pattern(f'set(range(min({idx_name}), num(max({idx_name}) + 2)))')[0]) is not None:
+                    free.append(n_)
+        # second idiom for the same number: walk the sorted DISTINCT indices from the smallest and stop at the first gap
+        #   idx = sorted({..int(m.group(1))..});  nxt = idx[0] if idx else 1;  for i in idx: if i != nxt: break; nxt += 1
+        # (distinct matters: two directory entries with the same number -- `x (1).mp3`, `x (1).mp3.bak` -- must not look like a gap)
+        walk_nxt = None
+        if idx_name and not free:
+            idef = [n_ for n_ in walk_local(nd.node) if isinstance(n_, ast.Assign) and unparse(n_.targets[0]) == idx_name]
+            distinct = len(idef) == 1 and isinstance(idef[0].value, ast.Call) and call_name(idef[0].value) == 'sorted' and len(idef[0].value.args) == 1 and (
+                isinstance(idef[0].value.args[0], ast.SetComp) or (isinstance(idef[0].value.args[0], ast.Call) and call_name(idef[0].value.args[0]) in ('set', 'frozenset')))
+            for lp_ in [n_ for n_ in walk_local(nd.node) if isinstance(n_, ast.For) and unparse(n_.iter) == idx_name and isinstance(n_.target, ast.Name)]:
+                incs_ = [n_ for n_ in walk_local(lp_) if isinstance(n_, ast.AugAssign) and isinstance(n_.op, ast.Add) and const(n_.value) == 1 and isinstance(n_.target, ast.Name)]
+                brks_ = [n_ for n_ in walk_local(lp_) if isinstance(n_, ast.Break)]
+                if len(incs_) == 1 and len(brks_) == 1:
+                    cand_ = incs_[0].target.id
+                    eq_ = pat.compile_pattern(f'{lp_.target.id} == {cand_}')[0]
+                    inc_ok = any(pat.match(e_, eq_) is not None and pol_ for e_, pol_, _ in eng.guards_at(nd, incs_[0])) and len(eng.guards_at(nd, incs_[0])) == 1
+                    brk_ok = any(pat.match(e_, eq_) is not None and not pol_ for e_, pol_, _ in eng.guards_at(nd, brks_[0])) and len(eng.guards_at(nd, brks_[0])) == 1
+                    inits_ = [(conds, leaf) for n_ in walk_local(nd.node) if isinstance(n_, ast.Assign) and unparse(n_.targets[0]) == cand_ and lp_ not in list(ancestors(n_))
+                              for conds, leaf in cond_values(eng, nd, n_)]
+                    first_ok = any(unparse(leaf) == f'{idx_name}[0]' and any(unparse(e_) == idx_name and pol_ for e_, pol_ in conds) for conds, leaf in inits_)
+                    one_ok = any(const(leaf) == 1 and any(unparse(e_) == idx_name and not pol_ for e_, pol_ in conds) for conds, leaf in inits_)
+                    if distinct and inc_ok and brk_ok and first_ok and one_ok and len(inits_) == 2:
+                        walk_nxt = cand_
+        facts['next index = min(set(range(min, max + 2)) - used): the smallest unused index'] = len(free) == 1 or walk_nxt is not None
+        nxt = walk_nxt
+        if free:
+            stf = enclosing_stmt(free[0])
+            nxt = unparse(stf.targets[0]) if isinstance(stf, ast.Assign) else None
+            gs_ = [(unparse(e), pol) for e, pol, _ in eng.guards_at(nd, stf)]
+            facts['that formula is used exactly when numbered files exist, otherwise the index is 1'] = gs_ == [(idx_name, True)] and any(
+                isinstance(n_, ast.Assign) and unparse(n_.targets[0]) == nxt and const(n_.value) == 1 for n_ in walk_local(nd.node))
+        js = [n_ for n_ in walk_local(nd.node) if isinstance(n_, ast.JoinedStr)]
+        shape = None
+        for j in js:
+            shape = [(unparse(v_.value) if isinstance(v_, ast.FormattedValue) else v_.value) for v_ in j.values]
+            if shape == [stem, ' (', nxt, ')', ext]:
+                break
+        facts['the new name is "<stem> (<index>)<ext>"'] = shape == [stem, ' (', nxt, ')', ext]
+        rets_ = [n_ for n_ in walk_local(nd.node) if isinstance(n_, ast.Return)]
+        facts['the directory is returned unchanged with the new name'] = len(rets_) == 1 and isinstance(rets_[0].value, ast.Tuple) and \
+            unparse(rets_[0].value.elts[0]) == dirp and isinstance(expand_aliases(nd, rets_[0].value.elts[1]), ast.JoinedStr)
+    bad_ = [k_ for k_, v_ in facts.items() if not v_]
+    ck.ob(rule, nd, nd.node, 'the duplicate number is the smallest index NOT present in the directory listing and the new name is '
+          '"<stem> (<index>)<ext>", the form the listing pattern recognises', not bad_, f'not established: {bad_}', construct='free index')
+    dn = eng.func(NAMING, 'DuplicateNamingStrategy.should_be_applied')
+    drets = [expand_aliases(dn, n.value) for n in walk_local(dn.node) if isinstance(n, ast.Return) and n.value is not None]
+    ok = len(drets) == 1 and pat.match(drets[0], pat.compile_pattern(f'os.path.exists(os.path.join({dn.params[1]}, {dn.params[2]}))')[0]) is not None
+    ck.ob(rule, dn, dn.node, 'a duplicate strategy applies iff join(dir, name) exists', ok, '', construct='duplicate test')
+    sm_init = eng.func(SHARES, 'SharesManager.__init__')
+    ns = [v for f, st, v in eng.stores_to_attr('naming_strategies', [sm_init])]
+    ok = len(ns) == 1 and isinstance(ns[0], ast.List) and [call_name(e) for e in ns[0].elts][-1] == 'NumberDuplicateStrategy' and call_name(ns[0].elts[0]) == 'DefaultNamingStrategy'
+    ck.ob(rule, sm_init, sm_init.node, 'the shipped chain starts with the default strategy and ends with the duplicate-numbering strategy', ok, '', construct='shipped chain')
+
+
+
 def run(eng: Engine, ck: Check):
     repo = eng.repo
     srp = eng.func(UTILS, 'split_remote_path')
@@ -190,89 +281,7 @@ def run(eng: Engine, ck: Check):
           f'not established: {bad_}', construct='prepare download path')
 
     # ---- R-C09-NUMBER
-    nd = eng.func(NAMING, 'NumberDuplicateStrategy.apply')
-    dirp, namep = nd.params[2], nd.params[3]
-    facts = {}
-    sp = pfind(nd.node, f'$stem, $ext = os.path.splitext({namep})')
-    facts['stem and extension come from splitext(local_filename)'] = len(sp) == 1
-    if sp:
-        stem, ext = sp[0][1]['stem'], sp[0][1]['ext']
-        sa_n = single_assignments(nd)
-        lst = [x for x in calls_in(nd.node) if pat.match(x, pat.compile_pattern(f'os.listdir({dirp})')[0]) is not None]
-        facts['the directory listing of local_dir is consulted'] = len(lst) == 1
-        ms = [x for x in calls_in(nd.node) if call_name(x) in ('match', 'fullmatch') and len(x.args) == 2]
-        facts['every listed name is matched against escape(stem) + PATTERN + escape(ext)'] = len(ms) == 1 and pat.match(
-            expand_aliases(nd, ms[0].args[0]), pat.compile_pattern(f're.escape({stem}) + self.PATTERN + re.escape({ext})')[0]) is not None
-        idx_src = pfind(nd.node, 'int($m.group(1))')
-        facts['the captured number of every match is collected'] = len(idx_src) == 1
-        # the list the numbers go to
-        idx_name = None
-        if idx_src:
-            n0 = idx_src[0][0]
-            par = parent(n0)
-            if isinstance(par, ast.Call) and call_name(par) == 'append' and isinstance(par.func.value, ast.Name):
-                idx_name = par.func.value.id
-            else:
-                st0 = enclosing_stmt(n0)
-                if isinstance(st0, ast.Assign) and isinstance(st0.targets[0], ast.Name):
-                    idx_name = st0.targets[0].id
-        free = []
-        if idx_name:
-            for n_, bd_ in pfind(nd.node, f'min($cand - set({idx_name}))'):
-                cand = expand_aliases(nd, ast.parse(bd_['cand'], mode='eval').body, depth=1)
-                if pat.match(cand, pat.compile_pattern(f'set(range(min({idx_name}), num(max({idx_name}) + 2)))')[0]) is not None:
-                    free.append(n_)
-        # second idiom for the same number: walk the sorted DISTINCT indices from the smallest and stop at the first gap
-        #   idx = sorted({..int(m.group(1))..});  nxt = idx[0] if idx else 1;  for i in idx: if i != nxt: break; nxt += 1
-        # (distinct matters: two directory entries with the same number -- `x (1).mp3`, `x (1).mp3.bak` -- must not look like a gap)
-        walk_nxt = None
-        if idx_name and not free:
-            idef = [n_ for n_ in walk_local(nd.node) if isinstance(n_, ast.Assign) and unparse(n_.targets[0]) == idx_name]
-            distinct = len(idef) == 1 and isinstance(idef[0].value, ast.Call) and call_name(idef[0].value) == 'sorted' and len(idef[0].value.args) == 1 and (
-                isinstance(idef[0].value.args[0], ast.SetComp) or (isinstance(idef[0].value.args[0], ast.Call) and call_name(idef[0].value.args[0]) in ('set', 'frozenset')))
-            for lp_ in [n_ for n_ in walk_local(nd.node) if isinstance(n_, ast.For) and unparse(n_.iter) == idx_name and isinstance(n_.target, ast.Name)]:
-                incs_ = [n_ for n_ in walk_local(lp_) if isinstance(n_, ast.AugAssign) and isinstance(n_.op, ast.Add) and const(n_.value) == 1 and isinstance(n_.target, ast.Name)]
-                brks_ = [n_ for n_ in walk_local(lp_) if isinstance(n_, ast.Break)]
-                if len(incs_) == 1 and len(brks_) == 1:
-                    cand_ = incs_[0].target.id
-                    eq_ = pat.compile_pattern(f'{lp_.target.id} == {cand_}')[0]
-                    inc_ok = any(pat.match(e_, eq_) is not None and pol_ for e_, pol_, _ in eng.guards_at(nd, incs_[0])) and len(eng.guards_at(nd, incs_[0])) == 1
-                    brk_ok = any(pat.match(e_, eq_) is not None and not pol_ for e_, pol_, _ in eng.guards_at(nd, brks_[0])) and len(eng.guards_at(nd, brks_[0])) == 1
-                    inits_ = [(conds, leaf) for n_ in walk_local(nd.node) if isinstance(n_, ast.Assign) and unparse(n_.targets[0]) == cand_ and lp_ not in list(ancestors(n_))
-                              for conds, leaf in cond_values(eng, nd, n_)]
-                    first_ok = any(unparse(leaf) == f'{idx_name}[0]' and any(unparse(e_) == idx_name and pol_ for e_, pol_ in conds) for conds, leaf in inits_)
-                    one_ok = any(const(leaf) == 1 and any(unparse(e_) == idx_name and not pol_ for e_, pol_ in conds) for conds, leaf in inits_)
-                    if distinct and inc_ok and brk_ok and first_ok and one_ok and len(inits_) == 2:
-                        walk_nxt = cand_
-        facts['next index = min(set(range(min, max + 2)) - used): the smallest unused index'] = len(free) == 1 or walk_nxt is not None
-        nxt = walk_nxt
-        if free:
-            stf = enclosing_stmt(free[0])
-            nxt = unparse(stf.targets[0]) if isinstance(stf, ast.Assign) else None
-            gs_ = [(unparse(e), pol) for e, pol, _ in eng.guards_at(nd, stf)]
-            facts['that formula is used exactly when numbered files exist, otherwise the index is 1'] = gs_ == [(idx_name, True)] and any(
-                isinstance(n_, ast.Assign) and unparse(n_.targets[0]) == nxt and const(n_.value) == 1 for n_ in walk_local(nd.node))
-        js = [n_ for n_ in walk_local(nd.node) if isinstance(n_, ast.JoinedStr)]
-        shape = None
-        for j in js:
-            shape = [(unparse(v_.value) if isinstance(v_, ast.FormattedValue) else v_.value) for v_ in j.values]
-            if shape == [stem, ' (', nxt, ')', ext]:
-                break
-        facts['the new name is "<stem> (<index>)<ext>"'] = shape == [stem, ' (', nxt, ')', ext]
-        rets_ = [n_ for n_ in walk_local(nd.node) if isinstance(n_, ast.Return)]
-        facts['the directory is returned unchanged with the new name'] = len(rets_) == 1 and isinstance(rets_[0].value, ast.Tuple) and \
-            unparse(rets_[0].value.elts[0]) == dirp and isinstance(expand_aliases(nd, rets_[0].value.elts[1]), ast.JoinedStr)
-    bad_ = [k_ for k_, v_ in facts.items() if not v_]
-    ck.ob('R-C09-NUMBER', nd, nd.node, 'the duplicate number is the smallest index NOT present in the directory listing and the new name is '
-          '"<stem> (<index>)<ext>", the form the listing pattern recognises', not bad_, f'not established: {bad_}', construct='free index')
-    dn = eng.func(NAMING, 'DuplicateNamingStrategy.should_be_applied')
-    drets = [expand_aliases(dn, n.value) for n in walk_local(dn.node) if isinstance(n, ast.Return) and n.value is not None]
-    ok = len(drets) == 1 and pat.match(drets[0], pat.compile_pattern(f'os.path.exists(os.path.join({dn.params[1]}, {dn.params[2]}))')[0]) is not None
-    ck.ob('R-C09-NUMBER', dn, dn.node, 'a duplicate strategy applies iff join(dir, name) exists', ok, '', construct='duplicate test')
-    sm_init = eng.func(SHARES, 'SharesManager.__init__')
-    ns = [v for f, st, v in eng.stores_to_attr('naming_strategies', [sm_init])]
-    ok = len(ns) == 1 and isinstance(ns[0], ast.List) and [call_name(e) for e in ns[0].elts][-1] == 'NumberDuplicateStrategy' and call_name(ns[0].elts[0]) == 'DefaultNamingStrategy'
-    ck.ob('R-C09-NUMBER', sm_init, sm_init.node, 'the shipped chain starts with the default strategy and ends with the duplicate-numbering strategy', ok, '', construct='shipped chain')
+    free_name_rules(eng, ck, 'R-C09-NUMBER')
 
     # ---- R-C09-RESERVE: check-then-create atomicity
     df = eng.func(TM, 'TransferManager._download_file')
@@ -291,3 +300,5 @@ def run(eng: Engine, ck: Check):
               f'the path is chosen in {pdp.name} (exists-check on disk only), then the task suspends (line {s.lineno if s else inner[0].lineno}) before '
               'aiofiles.open(.., "ab") creates the file: two downloads of equally named files that start in the same window get the same local path and both append to it',
               construct='choose-then-create atomic')
+    from . import defs as _d_rq
+    _d_rq.requeue_forgets_local_file(eng, ck, 'R-C09-RESERVE')
